@@ -744,6 +744,11 @@ pub fn run_hist(hp: &HP, seed: u64, steps: Option<&[Step]>) -> HistRun {
         // counts): only the no-panic oracle is meaningful, the other monitors' verdicts are not recorded
         out.violations.retain(|v| v.property == "C06");
     }
+    if hp.setup.policy.renew == RenewMode::Tie {
+        // identities without a total conflict order are outside the premise of the table properties (C01, C09):
+        // under this policy only the reaction to one's own death (C08, C10) and the no-panic oracle are recorded
+        out.violations.retain(|v| matches!(v.property, "C10" | "C08" | "C06"));
+    }
     out.sim_ns = now.min(1u64 << 50);
     HistRun { out, steps: done, history: d.history }
 }
